@@ -203,8 +203,12 @@ def _val(name, t):
     if k == "b":
         return bool(t)
     if k == "f":
-        return float(t)
+        return float("nan") if t == NAN_TOK else float(t)
     return int(t)
+
+
+NAN_TOK = 7      # in a float category this token is rendered as NaN (an ordinary, self-equal token for the model:
+                 # equal_annotations / == / stack use equal_nan=True)
 
 
 def _np_col(name, ts):
@@ -213,11 +217,15 @@ def _np_col(name, ts):
     if k == "s":
         # natural width of the values: string annotations of different arrays have different dtypes
         return np.array([_val(name, t) for t in ts], dtype=str) if ts else np.array([], dtype="U1")
-    return np.array([_val(name, t) for t in ts], dtype={"b": bool, "f": float}.get(k, int))
+    if k == "f":
+        # float annotations of every width (float16 holds the tokens exactly)
+        return np.array([_val(name, t) for t in ts], dtype=(np.float16, np.float32, np.float64)[sum(ts) % 3])
+    return np.array([_val(name, t) for t in ts], dtype={"b": bool}.get(k, int))
 
 
 def _dtype(name):
-    return {"s": "U1", "b": bool, "f": float}.get(kind_of(name), int)
+    import numpy as np
+    return {"s": "U1", "b": bool, "f": np.float32}.get(kind_of(name), int)
 
 
 def _np_coord(blocks, stack, n=0):
@@ -261,6 +269,8 @@ def _tok(name, v):
             t = unword(v)
             return str(t) if t is not None else "?" + str(v)      # values are compared as strings
         f = float(v)
+        if f != f:
+            return str(NAN_TOK) if k == "f" else "X"
         return str(int(f)) if f == int(f) else "X"
     except Exception:  # noqa: BLE001
         return "X"
@@ -993,11 +1003,15 @@ class Gen:
         self.alias = {k: {k} for k in REGS}       # registers whose real objects may share memory
         self.malformed = malformed
         self.extra = rng.sample(["i_x", "f_y", "s_z", "b_w"], rng.choice([0, 0, 1, 1, 2, 3]))
+        if "f_y" not in self.extra and rng.random() < 0.4:
+            self.extra.append("f_y")      # float annotations (any width, possibly NaN) in most histories
 
     # tokens
     def t(self, name="i"):
         if kind_of(name) == "b":
             return self.rng.randint(0, 1)
+        if kind_of(name) == "f" and self.rng.random() < 0.3:
+            return NAN_TOK
         self.tok = 10 + (self.tok - 9) % 90
         return self.tok
 
@@ -1337,10 +1351,20 @@ def cases(rng, tier):
         yield from rng.sample(ex, 10)
 
 
+def _nan_case(fy):
+    """copy / == / stack / model assignment with a float annotation that contains NaN (token 7); width by sum % 3"""
+    a = ("new r0 A 2 chain_id=16,24;res_id=21,22;ins_code=16,24;res_name=16,17;hetero=0,1;atom_name=16,17;element=16,24;"
+         f"f_y={fy} 101,102 201 0:1:1")
+    return {"kind": "regress", "ops": [a, "copy r1 r0", "eq r0 r1", "setcoord r1 103,104", "stack r2 r0,r1", "copy r3 r0",
+                                       "setcoord r3 105,106", "setbox r3 202", "set r2 i-1 r3", "get r1 r2 i1", "eq r1 r3",
+                                       "setann r3 f_y 9,9", "stack r1 r0,r3", "eq r0 r3"]}
+
+
 def corpus():
     base = "new r0 S 3 chain_id=11,12,13;res_id=21,22,23;ins_code=31,32,33;res_name=41,42,43;hetero=0,1,0;atom_name=51,52,53;element=61,62,63 101,102,103/104,105,106 201,202 0:1:1,1:2:2"
     arr = "new r0 A 4 chain_id=11,12,13,14;res_id=21,22,23,24;ins_code=31,32,33,34;res_name=41,42,43,44;hetero=0,1,0,1;atom_name=51,52,53,54;element=61,62,63,64 101,102,103,104 201 0:1:1,1:2:2,0:3:4"
     return [
+        _nan_case("7,11"), _nan_case("7,12"), _nan_case("7,10"),     # float16, float32, float64
         {"kind": "regress", "ops": [base, "get2 r1 r0 sN:N:N i-1", "get2 r1 r0 e i-3", "get2 r1 r0 sN:N:N i3", "get2 r1 r0 e i-4", "get2 r1 r0 l1,0 i2"]},
         {"kind": "regress", "ops": [base, "del r0 i0", "del r0 i-1", "del r0 i0"]},
         {"kind": "regress", "ops": [arr, "get r1 r0 a3,0,-3", "get r2 r0 sN:N:-1", "get r3 r0 m0111", "copy r1 r0", "del r1 i1", "concat r2 r1,r0,r1", "repeat r3 r0 2 301,302,303,304,305,306,307,308"]},
